@@ -459,7 +459,7 @@ impl Prop for C16 {
     }
     fn plan(&self, tier: Tier) -> Plan {
         match tier {
-            Tier::Quick => Plan { runs: 48, time_box_s: None, isolation: Isolation::Threads },
+            Tier::Quick => Plan { runs: 144, time_box_s: None, isolation: Isolation::Threads },
             Tier::Thorough => Plan { runs: 4000, time_box_s: Some(480), isolation: Isolation::Threads },
         }
     }
@@ -475,6 +475,7 @@ impl Prop for C16 {
             max_points_knob_off: 0,
             custom_xml: true,
             small: true,
+            big_permille: 0,
         };
         let prog = gen_program(rc.run_seed, &cfg);
         let mut c = Rng::stream(rc.run_seed, "chunk-dev");
